@@ -87,7 +87,7 @@ func genC13(x *Ctx) *c13Scen {
 	case 3:
 		sc.Provider = "lifo"
 	}
-	sc.Raw = sc.Provider != "lifo" && tp.Chance(120)
+	sc.Raw = sc.Provider != "lifo" && tp.Chance(200)
 	sc.entry = tp.G(3) // 2: the container's ServeMux used directly as the http.Handler
 	sc.Entry = []string{"ServeHTTP", "Dispatch", "Mux"}[sc.entry]
 	sc.Recover = tp.Bool()
@@ -99,7 +99,7 @@ func genC13(x *Ctx) *c13Scen {
 		maxPayload = 70000
 	}
 	id := 0
-	kinds := []string{"get", "get", "post-gzip", "early-close", "post-trunc", "notfound", "panic", "post-deflate", "client-gone", "plain", "hijack", "manual", "no-content", "post-panic"}
+	kinds := []string{"get", "get", "post-gzip", "early-close", "post-trunc", "notfound", "panic", "post-deflate", "client-gone", "plain", "hijack", "manual", "no-content", "post-panic", "post-badzlib"}
 	aes := []string{"gzip", "deflate", "gzip", "deflate, gzip", ""}
 	tp.Repeat(2, nClients, 600, func(int) {
 		var reqs []*c13Req
@@ -116,10 +116,12 @@ func genC13(x *Ctx) *c13Scen {
 				r.WFailAt = tp.G(4)
 			}
 			switch r.Kind {
-			case "post-gzip", "post-trunc", "post-deflate", "post-panic":
+			case "post-gzip", "post-trunc", "post-deflate", "post-panic", "post-badzlib":
 				ent := echoEntity{Tok: fmt.Sprintf("tok-%d", r.ID), N: int64(r.ID) << 40, Pad: sim.PayloadText(fmt.Sprintf("p%d", r.ID), r.N%1500)}
 				raw := []byte(jsonStr(ent))
-				if r.Kind == "post-deflate" {
+				if r.Kind == "post-badzlib" {
+					r.body = raw // declared deflate, but no zlib stream at all
+				} else if r.Kind == "post-deflate" {
 					r.body = Zlib(raw)
 				} else {
 					r.body = Gzip(raw)
@@ -347,10 +349,13 @@ func runC13(x *Ctx) {
 					hr = NewReq("GET", "/p/none", hdr, nil, 0, r.ID)
 				case "plain":
 					hr = NewReq("GET", "/plain/x", hdr, nil, 0, r.ID)
-				case "post-gzip", "post-trunc", "post-deflate", "post-panic":
+				case "post-gzip", "post-trunc", "post-deflate", "post-panic", "post-badzlib":
 					hdr["Content-Type"] = "application/json"
 					hdr["Content-Encoding"] = "gzip"
-					if r.Kind == "post-deflate" {
+					if r.Kind == "post-badzlib" {
+						t.Count("fault-bhdr")
+					}
+					if r.Kind == "post-deflate" || r.Kind == "post-badzlib" {
 						hdr["Content-Encoding"] = "deflate"
 					}
 					b := &sim.SimBody{T: t, Data: r.body, Chunks: r.BChunks}
@@ -523,6 +528,12 @@ func runC13(x *Ctx) {
 					x.Violate("truncated-body-accepted", "request %d: gzip body cut at byte %d of %d was read without error as %q", r.ID, r.TruncAt, len(r.body), r.readTok)
 				} else if !strings.HasPrefix(string(got), "bad:") {
 					x.Violate("foreign-payload", "request %d (post-trunc): body %q", r.ID, clip(string(got), 60))
+				}
+			case "post-badzlib":
+				if r.readErr == "" {
+					x.Violate("broken-body-accepted", "request %d: a body declared deflate that is no zlib stream was read without error as %q", r.ID, r.readTok)
+				} else if !strings.HasPrefix(string(got), "bad:") {
+					x.Violate("foreign-payload", "request %d (post-badzlib): body %q", r.ID, clip(string(got), 60))
 				}
 			case "notfound":
 				if r.w.Status() != 404 {
